@@ -25,7 +25,7 @@ use timespec::{DayDefault, MinDefault};
 macro_rules! unary {
     ($identifier:expr, $transform:expr, $parser:expr) => {
         preceded(
-            $identifier,
+            terminated($identifier, word_end),
             cut_err(preceded(multispace1, cut_err($parser))),
         )
         .context(label($identifier))
@@ -36,7 +36,7 @@ macro_rules! unary {
 macro_rules! binary {
     ($identifier:expr, $transform:expr, $parser_lhs:expr, $parser_rhs:expr, $arguments:expr) => {
         preceded(
-            $identifier,
+            terminated($identifier, word_end),
             cut_err(
                 preceded(
                     multispace1,
@@ -122,17 +122,17 @@ impl Parseable for Action {
             ),
             unary!("-fprint0", Action::FilePrintNull, String::parse),
             unary!("-fprint", Action::FilePrint, String::parse),
-            terminated("-ls", multispace0).value(Action::List),
-            terminated("-print-file-fid", multispace0).value(Action::PrintFid),
+            literal("-ls").value(Action::List),
+            literal("-print-file-fid").value(Action::PrintFid),
             unary!(
                 "-printf",
                 Action::PrintFormatted,
                 quote_delimiter().and_then(Vec::<FormatElement>::parse)
             ),
-            terminated("-print0", multispace0).value(Action::PrintNull),
-            terminated("-print", multispace0).value(Action::Print),
-            terminated("-prune", multispace0).value(Action::Prune),
-            terminated("-quit", multispace0).value(Action::Quit),
+            literal("-print0").value(Action::PrintNull),
+            literal("-print").value(Action::Print),
+            literal("-prune").value(Action::Prune),
+            literal("-quit").value(Action::Quit),
         ))
         .context(label("action"))
         .parse_next(input)
@@ -287,9 +287,15 @@ pub fn token(input: &mut &str) -> PResult<Token> {
         // as an expression, eg `-atime` does not become `[Token::And, "time"]`
         terminated(alt(("-or", "-o")), alt((multispace1, eof))).value(Token::Or),
         terminated(alt(("-and", "-a")), alt((multispace1, eof))).value(Token::And),
-        Test::parse.map(Token::Test),
-        Action::parse.map(Token::Action),
-        GlobalOption::parse.map(Token::Global),
+        // A primary and its arguments have to end where a word ends, `-true-false` is no token
+        terminated(
+            alt((
+                Test::parse.map(Token::Test),
+                Action::parse.map(Token::Action),
+                GlobalOption::parse.map(Token::Global),
+            )),
+            word_end,
+        ),
         fail.context(expected("invalid_token")),
     ))
     .context(label("syntax"))
@@ -302,7 +308,10 @@ fn _parse(input: &mut &str) -> PResult<(RunOptions, Exp)> {
     winnow::Parser::<&str, Vec<GlobalOption>, winnow::error::ContextError>::parse_next(
         &mut preceded(
             multispace0,
-            repeat(0.., terminated(GlobalOption::parse, multispace0)),
+            repeat(
+                0..,
+                terminated(terminated(GlobalOption::parse, word_end), multispace0),
+            ),
         ),
         input,
     )?
